@@ -8,8 +8,8 @@ from ..core import SKIP
 
 ID = "C13"
 RULE = ("exhaustive row CONTENTS (every letter assignment) x every w 1..5, total >= w -- thorough: 2 letters: all lists of "
-        "<= 3 rows of length <= 4; 3 letters: <= 2 rows of length <= 4 and 3 rows of length <= 2; 4 letters (bit-packed path): 1 row of "
-        "length <= 5, 2 rows of length <= 3, 3 rows of length <= 2, plus 30k sampled 3-row lists of length <= 4; quick: 2 letters <= 2 "
+        "<= 3 rows of length <= 4; 3 letters: <= 2 rows of length <= 3 and 3 rows of length <= 2; 4 letters (bit-packed path): 1 row of "
+        "length <= 5, 2 rows of length <= 3, 3 rows of length <= 2, plus 30k sampled 2-/3-row lists of length <= 4 over 3 and 4 letters; quick: 2 letters <= 2 "
         "rows of length <= 3 and 3 rows of length <= 2, 3 and 4 letters 2 rows of length <= 2 (k-mers with k = w observe the mechanism "
         "injectively; all functions on the 1- and 2-row lists). Then: ragged lists of 1..N sequences of length 0..M (empty rows, rows of length w-1, w, w+1, short last row) x window/k "
         "1..31 x alphabets of size 4 (bit-packed path: ACGT, ACTG) and other sizes (generic path: AB, ABC, ACGTN, amino acids): "
@@ -335,7 +335,7 @@ def cases(tier, rng):
 
     if big:
         scopes = [("AB", 1, 4, True), ("AB", 2, 4, True), ("AB", 3, 4, False),
-                  ("ABC", 1, 4, True), ("ABC", 2, 4, False), ("ABC", 3, 2, False),
+                  ("ABC", 1, 4, True), ("ABC", 2, 3, False), ("ABC", 3, 2, False),
                   ("ACGT", 1, 5, True), ("ACGT", 2, 3, False), ("ACGT", 3, 2, False)]
     else:
         scopes = [("AB", 1, 3, True), ("AB", 2, 3, False), ("AB", 3, 2, False), ("ACGT", 2, 2, False), ("ABC", 2, 2, False)]
@@ -352,10 +352,10 @@ def cases(tier, rng):
                     if not big and rng.random() < 0.15:
                         yield from _ops_for(rng, alpha, rows, w, big)
     if big:      # a sample of the scopes too large to enumerate (3 rows of length <= 4 over 3 and 4 letters)
-        for alpha in ("ABC", "ACGT"):
+        for alpha, nr in (("ABC", 2), ("ABC", 3), ("ACGT", 3)):
             cs = contents(len(alpha), 4)
-            for _ in range(15000):
-                rows = [rng.choice(cs) for _ in range(3)]
+            for _ in range(10000):
+                rows = [rng.choice(cs) for _ in range(nr)]
                 w = rng.randint(1, 5)
                 if sum(len(r) for r in rows) >= w:
                     yield {"op": "kmers", "alpha": alpha, "rows": rows, "k": w, "text": False}
@@ -398,7 +398,7 @@ def cases(tier, rng):
                 if k <= 10:
                     yield {"op": "pwm", "alpha": alpha, "rows": rows, "matrix": _matrix(rng, n, k)}
     # 5. random ragged
-    for _ in range(20000 if big else 500):
+    for _ in range(12000 if big else 500):
         alpha = rng.choice(names)
         n = len(alpha)
         w = rng.choice([1, 1, 2, 2, 3, 4, 5, 7, 11, 16, 31])
